@@ -18,7 +18,8 @@ prop("C19", pkg="c19",
                "protowire for input surgery and the carry-over check",
      level_text="Exploration: about 0.16 M (type, rewriter, input) triples per quick run are checked against the value model; a rewriter output that does not decode to "
                 "'original with exactly the templated fields replaced', loses/reorders/changes an untemplated field, touches its input, template or out-prefix, or "
-                "panics is reported with a replayable case. Held = no such case outside the 3 classes listed in known_findings.json.",
+                "panics is reported with a replayable case. The 3 genuine defects this check found are repaired in /repo (status fixed in known_findings.json): their "
+                "witnesses run as regression cases and the shapes they had excluded (rules at numbers >= 256, BitOr on sint fields, ruled fields present repeatedly) are generated again.",
      level_note="Trusted base: protobuf-go v1.26.0 as decoder, harness/pschema and the ~20-line value model in harness/c19. Not covered: templated field numbers above "
                 "100 000 (MessageRewriter is a slice indexed by field number: 2^29-1 would need 8 GiB; larger numbers only occur as untemplated/unknown fields), "
                 "fixed32/fixed64-tagged integer fields inside templates (proto.TypeOf cannot express them; only hand-assembled Fixed32/Fixed64 rules), map templates "
